@@ -8,17 +8,17 @@ import build, obs, streams
 TIERS = {
     # stream -> (quick params, thorough params)
     "fn_c04": ({"n": 6000}, {"n": 120000}),
-    "pages": ({"shards": 4, "histories": 6, "length": 60}, {"shards": 16, "histories": 60, "length": 90}),
+    "pages": ({"shards": 8, "histories": 6, "length": 60}, {"shards": 16, "histories": 60, "length": 90}),
     "treasury": ({"n": 40}, {"n": 1500}),
     "config": ({"n": 60}, {"n": 3000}),
     "hook": ({"n": 600}, {"n": 20000}),
     "migrate": ({"n": 120}, {"n": 5000}),
     "proto": ({"n": 2}, {"n": 24}),
     "own": ({"n": 120}, {"n": 4000}),
-    "matrix": ({"shards": 4, "histories": 4, "length": 40}, {"shards": 16, "histories": 40, "length": 60}),
-    "extreme": ({"shards": 8, "histories": 25, "length": 60}, {"shards": 16, "histories": 300, "length": 80}),
-    "world": ({"shards": 8, "histories": 30, "length": 60}, {"shards": 16, "histories": 500, "length": 80}),
-    "world_mini": ({"shards": 4, "histories": 30, "length": 60}, {"shards": 16, "histories": 250, "length": 80}),
+    "matrix": ({"shards": 8, "histories": 4, "length": 40}, {"shards": 16, "histories": 40, "length": 60}),
+    "extreme": ({"shards": 16, "histories": 25, "length": 60}, {"shards": 16, "histories": 300, "length": 80}),
+    "world": ({"shards": 16, "histories": 30, "length": 60}, {"shards": 16, "histories": 500, "length": 80}),
+    "world_mini": ({"shards": 8, "histories": 30, "length": 60}, {"shards": 16, "histories": 250, "length": 80}),
 }
 
 
